@@ -3,10 +3,10 @@ from propcfg.common import *
 CFG = {
     "props": "Props/C16.v",
     "corr": ["Corr/TimeCorr.v"],
-    "engines": [("time", [])],
+    "engines": [("time", []), ("ticker", [])],
     "axioms": FLOCQ_AXIOMS,
     "trusted": COMMON_TB + ["math.Log2 floor on [2, 2^32] = Z.log2 (modelled; validated by the correspondence at every 2^k boundary)", "Flocq 4.1.0 (binary64 semantics: BinarySingleNaN.Bdiv / Btrunc / binary_normalize) is the model of Go's float64 division, math.Floor and the uint64 conversion; axioms of Coq's classical real numbers (ClassicalDedekindReals.sig_forall_dec, sig_not_dec, FunctionalExtensionality.functional_extensionality_dep, Classical_Prop.classic) enter through Flocq for C16_float_division / C16_float_floor_div_exact only"],
     "assumptions": ["periods are whole seconds (sub-second periods are outside the property's quantifier)"],
-    "level_text": "Theorems C16_no_wrap, C16_monotone, C16_error_upward_closed, C16_current_brackets, C16_current_unique, C16_next hold for ALL periods 1..2^32-1 s, genesis 0..2^32, instants up to 2^50 s after genesis and all 64-bit rounds, over a model of common/time.go that keeps uint64/int64 wrap-around explicit; the model is compared with the real TimeOfRound/NextRound/CurrentRound on grid, boundary-directed and random inputs on every run, and the buffer constant is regenerated from the source.",
+    "level_text": "Theorems C16_no_wrap, C16_monotone, C16_error_upward_closed, C16_current_brackets, C16_current_unique, C16_next hold for ALL periods 1..2^32-1 s, genesis 0..2^32, instants up to 2^50 s after genesis and all 64-bit rounds, over a model of common/time.go that keeps uint64/int64 wrap-around explicit; the model is compared with the real TimeOfRound/NextRound/CurrentRound on grid, boundary-directed and random inputs on every run, and the buffer constant is regenerated from the source. The ticker engine drives the REAL beacon ticker (hook VerifTicker) on a fake clock through boundaries, bursts over several periods and stalls (ticks generated but not consumed) and checks every announced (round, time) pair against the model's current round (case TK) and an independent monitor (C16-tick-round-is-not-the-round-of-its-time).",
     "level_note": "Kernel + vm_compute; no axioms except the classical-reals axioms of the standard library under the two float theorems. The float division is proved equal to integer division below 2^53 on Flocq's binary64 (C16_float_division, uses the standard library's classical-reals axioms); math.Log2 floor = Z.log2 is validated by the correspondence at every 2^k boundary; the Go compiler/runtime is not verified.",
 }
